@@ -189,6 +189,8 @@ class Merger(object):
     def write_channel_data(self):
         """Write channel-dependent data, and register self.channel_offsets."""
         self.channel_offsets = []
+        # Index of the first channel of every probe in the merged channel arrays.
+        self.channel_index_offsets = []
         channel_probes = []
         channel_maps_l = _load_multiple_files('channel_map.npy', self.subdirs)
         # TODO if needed: channel_shanks.npy
@@ -196,6 +198,7 @@ class Merger(object):
         for ind, array in enumerate(channel_maps_l):
             array += offset
             self.channel_offsets.append(offset)
+            self.channel_index_offsets.append(sum(cp.size for cp in channel_probes))
             offset = int(array.max())
             channel_probes.append(array * 0 + ind)
         channel_maps = _concat(channel_maps_l, axis=0)
@@ -248,14 +251,15 @@ class Merger(object):
             # 'templates_ind.npy',  # HACK: do not copy this array (which is trivial with 0 1 2 3..
             # on each row),
             # the templates.npy file is really dense in KS2 and should stay this way
-            'pc_feature_ind.npy',
-            'template_feature_ind.npy',
+            # pc_feature_ind holds channel indices, template_feature_ind holds template ids.
+            ('pc_feature_ind.npy', self.channel_index_offsets),
+            ('template_feature_ind.npy', self.template_offsets),
         ]
 
-        for fn in template_data:
+        for fn, offsets in template_data:
             arrays = _load_multiple_files(fn, self.subdirs)
-            # For ind arrays, we need to take into account the channel offset.
-            for array, offset in zip(arrays, self.channel_offsets):
+            # For ind arrays, we need to take into account the channel (or template) offset.
+            for array, offset in zip(arrays, offsets):
                 array += int(offset)
             concat = _concat(arrays, axis=0).astype(np.uint32)
             self._save(fn, concat)
